@@ -311,6 +311,15 @@ let run_metaswitch line =
       (String.concat "" (List.map (fun (k, _) -> if is_control k then "1" else "0") ms))
   | _ -> "?"
 
+(* ---------- table alignment: comma separated letter codes of the separator cells -> column specification letters *)
+let run_talign line =
+  let cells = List.map (fun x -> n_of_int (int_of_string x)) (split_on ',' line) in
+  let size = table_alignment_size in
+  let rec rep k = if k = O then [] else (match k with S k' -> N0 :: rep k' | O -> []) in
+  match record size record_limit cells O (rep size) with
+  | None -> "OOB"
+  | Some r -> String.concat "," (List.map (fun b -> string_of_int (int_of_n b)) (colspec r))
+
 let () =
   let model = Sys.argv.(1) in
   let f = match model with
@@ -326,6 +335,7 @@ let () =
     | "hid" -> run_hid
     | "outline" -> run_outline
     | "metaswitch" -> run_metaswitch
+    | "talign" -> run_talign
     | _ -> failwith "unknown model" in
   try while true do
     let line = input_line stdin in
